@@ -905,6 +905,10 @@ func (ea ExpressionAttribute) formatExpression() (exp []string) {
 	}
 
 	// Return.
+	if len(lines) == 3 {
+		// gofmt joined the expression into one line: it is written like an expression that was on one line.
+		return []string{strings.TrimSpace(lines[1])}
+	}
 	return lines[1 : len(lines)-1]
 }
 
